@@ -172,6 +172,42 @@ def run(rep, tier, rng):
             finally:
                 G.hash_source = orig
             break
+    # ---- key expressions assembled by a macro_rules! macro from `$e:expr` / `$t:ty` fragments (invisible groups) ----
+    fcases = []
+    for k, (entry, kind) in enumerate((("attr", "struct"), ("derive", "struct"), ("attr", "enum"), ("derive", "enum"))):
+        head = "#[::derive_ex::derive_ex(Hash)]" if entry == "attr" else "#[derive(::derive_ex::Ex)] #[derive_ex(Hash)]"
+        body = "{ #[hash(key = $d * $m)] a: u32, #[hash(key = ($d as $t) % $m)] b: u8, c: u8 }"
+        item = f"pub struct Ty {body}" if kind == "struct" else f"pub enum Ty {{ V0, V1 {body} }}"
+        ctor = "Ty { a: 5, b: 7, c: 1 }" if kind == "struct" else "Ty::V1 { a: 5, b: 7, c: 1 }"
+        code = (f"macro_rules! mk {{ ($d:tt, $m:expr, $t:ty) => {{ {head} {item} }} }}\nmk!($, 2 + 1, u16);\n"
+                f'pub fn run() {{ let x = {ctor}; let mut want = ::std::vec::Vec::new(); '
+                + ('' if kind == "struct" else 'want.push(::dxrt::RecHasher::of(&::core::mem::discriminant(&x))); ') +
+                f'want.push(::dxrt::RecHasher::of(&(5u32 * (2 + 1)))); want.push(::dxrt::RecHasher::of(&((7u8 as u16) % (2 + 1)))); want.push(::dxrt::RecHasher::of(&1u8)); '
+                f'::dxrt::ev!("frag", "got" => ::dxrt::RecHasher::of(&x), "want" => want.join(";")); }}')
+        fcases.append(C.Case(f"f{k}", code, {"what": f"{kind} {entry}"}))
+    _, fnotes = C.run_cases(fcases, "c06f", header=HEADER, batch_size=4)
+    for n in fnotes:
+        rep.inconcl(n)
+    for c in fcases:
+        if c.status == "inconclusive":
+            continue
+        rep.evaluations += 1
+        rep.count("macro_fragment_key_cases")
+        ev = next((e for e in c.events if e.get("k") == "frag"), None)
+        if c.status == "compile_fail":
+            who, d = C.blame(c)
+            if who == "harness":
+                rep.inconcl(f"macro-fragment program does not compile outside derive_ex's output: {str(d['message'])[:120]}")
+            else:
+                rep.violation(f"C06|macro-fragment-key|compile_fail|{c.meta['what'].split()[0]}", f"{c.meta['what']}: {d['code']}: {(d['message'] or '')[:150]}", {"spec": None, "code": c.code})
+        elif ev is None:
+            rep.inconcl("no observation in " + c.name)
+        elif c.meta["what"].startswith("struct") and ev["got"] != ev["want"]:
+            rep.violation(f"C06|macro-fragment-key|feed|struct", f"key built from macro fragments: fed {ev['got']}, the key expressions as written give {ev['want']}\n{c.code[:300]}",
+                          {"spec": None, "code": c.code})
+        elif c.meta["what"].startswith("enum") and not ev["got"].endswith(ev["want"].split(";", 1)[1]):
+            rep.violation(f"C06|macro-fragment-key|feed|enum", f"key built from macro fragments: fed {ev['got']}, the key expressions as written give ..;{ev['want'].split(';', 1)[1]}\n{c.code[:300]}",
+                          {"spec": None, "code": c.code})
     rep.rule = ("generated structs/enums with Hash derived alone or with its supertrait-closed companions, accepted placements "
                 "of hash/eq/ord ignore/key/by (field types as in C01, incl. Sh with an inherent hash(); 12-field shapes); the feed recorded by a recording Hasher (sequence of write_* calls) for every "
                 "value of the cartesian value set is compared with the concatenation, in declaration order, of reference "
@@ -182,6 +218,12 @@ def run(rep, tier, rng):
 def replay(rep, path):
     j = json.load(open(path))["replay"]
     s = j["spec"]
+    if s is None:
+        c = C.compile_single(j["code"], header=HEADER)
+        ev = next((e for e in c.events if e.get("k") == "frag"), None)
+        bad = c.status == "compile_fail" or (ev is not None and not ev["got"].endswith(ev["want"].split(";", 1)[1] if "discriminant" in j["code"] else ev["want"]))
+        print(f"VIOLATION property=C06 replay={path}" if bad else "replay: no violation")
+        return 1 if bad else 0
     s["variants"] = [{"style": v["style"], "fields": [dict(f, combo=tuple(f["combo"])) for f in v["fields"]]} for v in s["variants"]]
     c = C.compile_single(G.render(s, want_hash=True), header=HEADER)
     if c.status == "compile_fail" or (c.status == "ok" and check_case(s, c.events)):
